@@ -21,6 +21,25 @@ func xxhStream(chunks [][]byte) uint32 {
 	return x.Sum32()
 }
 
+// xxhStreamObs: the final digest of an object that was never asked before, and the running digests of
+// a second object asked TWICE after every write (Sum32 is an observation: it must not disturb the
+// state, and must be the digest of everything written so far)
+func xxhStreamObs(chunks [][]byte) string {
+	var y xxh32.XXHZero
+	run := make([]string, 0, len(chunks))
+	idem := "ok"
+	for i, c := range chunks {
+		y.Write(c)
+		a := y.Sum32()
+		b := y.Sum32()
+		if a != b {
+			idem = fmt.Sprintf("fail:two-consecutive-Sum32-calls-differ-after-write-%d", i)
+		}
+		run = append(run, strconv.FormatUint(uint64(b), 10))
+	}
+	return fmt.Sprintf("sum=%d sums=%s oracle_idem=%s", xxhStream(chunks), strings.Join(run, ","), idem)
+}
+
 func chunksField(chunks [][]byte) string {
 	s := make([]string, len(chunks))
 	for i, c := range chunks {
@@ -51,7 +70,7 @@ func replayXXH(kind string, f map[string]string) (string, bool) {
 				chunks = append(chunks, unhex(c))
 			}
 		}
-		return fmt.Sprintf("sum=%d", xxhStream(chunks)), true
+		return xxhStreamObs(chunks), true
 	case "xxhbig":
 		n, _ := strconv.ParseUint(f["n"], 10, 64)
 		return xxhBig(n), true
@@ -141,7 +160,7 @@ func compXXH(o *out, seed uint64, tier string) {
 					if r.intn(3) == 0 {
 						chunks = append(chunks, content(r.intn(40)))
 					}
-					o.emit("xxhs", "chunks="+chunksField(chunks), fmt.Sprintf("sum=%d", xxhStream(chunks)), len(chunks) > 1)
+					o.emit("xxhs", "chunks="+chunksField(chunks), xxhStreamObs(chunks), len(chunks) > 1)
 					o.count(fmt.Sprintf("stream_buffered=%d", m))
 				}
 			}
@@ -161,7 +180,7 @@ func compXXH(o *out, seed uint64, tier string) {
 				chunks = append(chunks, content(r.intn(200)))
 			}
 		}
-		o.emit("xxhs", "chunks="+chunksField(chunks), fmt.Sprintf("sum=%d", xxhStream(chunks)), len(chunks) > 1)
+		o.emit("xxhs", "chunks="+chunksField(chunks), xxhStreamObs(chunks), len(chunks) > 1)
 		o.count("stream_random")
 	}
 	// state injection near 2^32, 2^33, 2^64: total lengths no byte-level test reaches
